@@ -453,6 +453,78 @@ pub fn emit_stress(out: &mut Out, p: &StressPlan) {
     out.case(&case, &imp, nontrivial);
 }
 
+/// Systematic exploration of a small plan: every schedule with at most `bound` preemptions (a preemption =
+/// taking the processor away from a thread that could continue), depth first, up to `budget` schedules.
+pub fn explore(out: &mut Out, plan: &Plan, bound: usize, budget: usize, rng: &mut Rng) -> usize {
+    let mut stack: Vec<(Vec<usize>, usize)> = vec![(vec![], 0)]; // (forced prefix, preemptions used)
+    let mut done = 0;
+    while let Some((prefix, used)) = stack.pop() {
+        if done >= budget {
+            out.count("explore_budget_exhausted");
+            break;
+        }
+        let nosub = !subscriber_installed();
+        let r = run_scheduled(plan, rng, Some(&prefix), PREFIX_MODE);
+        done += 1;
+        // branch after the prefix
+        for j in (prefix.len()..r.choices.len()).rev() {
+            let cur = r.choices[j];
+            let prev = if j > 0 { Some(r.choices[j - 1]) } else { None };
+            for &alt in &r.runnable_sets[j] {
+                if alt == cur {
+                    continue;
+                }
+                // choosing `alt` instead of the default is a preemption iff the previous thread could continue
+                let preempt = prev.map(|p| r.runnable_sets[j].contains(&p)).unwrap_or(false);
+                // alternatives already covered: the default policy picked `cur`; order alternatives after it
+                let cost = used + preempt as usize;
+                if cost <= bound {
+                    let mut np = r.choices[..j].to_vec();
+                    np.push(alt);
+                    stack.push((np, cost));
+                }
+            }
+        }
+        let case = case_sx(plan, nosub, &r);
+        let imp = impl_sx(&r);
+        out.count("explore_schedules");
+        out.add("explore_labels", r.steps.len() as u64);
+        if r.end != "complete" && r.end != "writer parked, nobody left to wake it" {
+            out.fail(format!("scheduled run did not complete: {}", r.end), &case);
+        }
+        if let Some(d) = &r.diverged {
+            out.fail(d.clone(), &case);
+        }
+        out.case(&case, &imp, r.appended >= 2);
+    }
+    done
+}
+
+/// Small plans explored systematically.
+pub fn small_plans(focus: Focus) -> Vec<Plan> {
+    let base = |cap: usize, regime: u8, scripts: Vec<Vec<Op>>, joiner: usize| Plan {
+        cap, kind: 0, regime, scripts, joiner, results: vec![(1, 0, R_VAL)], report_result: 0, failing_flushes: vec![],
+    };
+    let mut v = vec![
+        // one producer, two entries into a ring of one, then shutdown
+        base(1, 0, vec![vec![Op::Append(0), Op::Append(1), Op::DropJoin, Op::DropH]], 1),
+        // two producers, one entry each, ring of one
+        base(1, 0, vec![vec![Op::Append(0), Op::DropJoin, Op::DropH], vec![Op::Append(0), Op::DropH]], 1),
+        // an entry, a flush request, an entry
+        base(2, 0, vec![vec![Op::Append(0), Op::Flush, Op::Append(1), Op::DropJoin, Op::DropH]], 1),
+    ];
+    match focus {
+        Focus::Flush => v.push(base(1, 1, vec![vec![Op::Append(0), Op::Flush, Op::DropJoin, Op::DropH], vec![Op::Flush, Op::Append(0), Op::DropH]], 1)),
+        Focus::Shutdown => {
+            v.push(base(2, 1, vec![vec![Op::Append(0), Op::Forget, Op::DropH], vec![Op::Append(0), Op::DropH]], 1));
+            v.push(base(1, 1, vec![vec![Op::Append(0), Op::DropJoin, Op::Append(1), Op::DropH]], 1));
+        }
+        Focus::Overflow => v.push(base(2, 1, vec![vec![Op::Append(0), Op::Append(1), Op::Append(2), Op::Append(3), Op::DropJoin, Op::DropH]], 1)),
+        Focus::Delivery => v.push(base(2, 1, vec![vec![Op::Append(0), Op::Append(1), Op::DropJoin, Op::DropH], vec![Op::Append(0), Op::DropH]], 1)),
+    }
+    v
+}
+
 /// The family's standard run: scheduled cases into suite "-s", unscheduled into "-u".
 pub fn run_family(ctx: &Ctx, focus: Focus, rule: &str) {
     let mut s = Out::new(ctx, "-s");
@@ -471,10 +543,15 @@ pub fn run_family(ctx: &Ctx, focus: Focus, rule: &str) {
         return;
     }
     let t0 = Instant::now();
-    let (n_sched, mut n_big, n_stress, budget) = if ctx.tier_thorough { (12000, 60, 60, 300.0) } else { (1500, 8, 12, 35.0) };
+    let (n_sched, mut n_big, n_stress, budget) = if ctx.tier_thorough { (40000, 120, 60, 420.0) } else { (3000, 8, 12, 50.0) };
     if focus == Focus::Flush {
         // the counter protocol only matters when more than 32 entries are queued in front of a request
         n_big *= 8;
+    }
+    // systematic part: small plans, every schedule with few preemptions
+    let (bound, per_plan) = if ctx.tier_thorough { (3, 4000) } else { (2, 250) };
+    for plan in small_plans(focus) {
+        explore(&mut s, &plan, bound, per_plan, &mut rng);
     }
     // phase 1: no tracing subscriber (in-band reports possible); phase 2: subscriber installed
     for phase in 0..2 {
